@@ -38,6 +38,7 @@ func (c17) Batches(tier string, seed uint64) []core.Batch {
 	b = append(b, spread("full", 4, tierN(tier, 800, 4000))...)
 	b = append(b, spread("prefix", 16, tierN(tier, 8, 60))...)
 	b = append(b, spread("malformed", 2, tierN(tier, 600, 3000))...)
+	b = append(b, spread("corpus", 8, 0)...) // installed Debian changelogs vs dpkg-parsechangelog (c17corpus.go)
 	if tier == "thorough" {
 		b = append(b, spread("dpkg-legality", 4, 60)...)
 	}
@@ -59,6 +60,10 @@ type clEntry struct {
 	Who     string            `json:"who"`
 	When    string            `json:"when"` // RFC1123Z text
 	Sep     int               `json:"sep"`  // blank lines after the entry
+	// DayStyle: how a day of the month below 10 is written in the trailer: 0 "03", 1 "3", 2 " 3" (deb-changelog(5): one or two digits)
+	DayStyle int `json:"daystyle,omitempty"`
+	// After: lines between this entry and the next (or the end): comment lines ("# ...") and lines of blanks
+	After []string `json:"after,omitempty"`
 	_       map[string]string `json:"-"`
 }
 
@@ -79,7 +84,13 @@ func (e clEntry) header() string {
 	return fmt.Sprintf("%s (%s) %s; %s\n", e.Source, e.Version, strings.Join(e.Dists, " "), strings.Join(o, ", "))
 }
 
-func (e clEntry) trailer() string { return fmt.Sprintf(" -- %s  %s\n", e.Who, e.When) }
+func (e clEntry) trailer() string {
+	when := e.When
+	if len(when) > 7 && when[5] == '0' && e.DayStyle > 0 { // "Mon, 03 Jan ..."
+		when = when[:5] + []string{"", "", " "}[e.DayStyle] + when[6:]
+	}
+	return fmt.Sprintf(" -- %s  %s\n", e.Who, when)
+}
 
 // render returns the text and, per entry, the offset just after its trailer's newline.
 func (d clDoc) render() (string, []int, []int) {
@@ -94,6 +105,9 @@ func (d clDoc) render() (string, []int, []int) {
 		ends = append(ends, sb.Len())
 		if i < len(d.Entries)-1 || !d.NoFinal {
 			sb.WriteString(strings.Repeat("\n", e.Sep))
+			for _, l := range e.After {
+				sb.WriteString(l + "\n")
+			}
 		}
 	}
 	s := sb.String()
@@ -155,6 +169,12 @@ func genChangelog(r *core.Rand, maxEntries int) clDoc {
 		body.WriteString(strings.Repeat("\n", r.Range(1, 2)))
 		e.Body = body.String()
 		e.Who = person(r)
+		e.DayStyle = r.Intn(3)
+		if r.Chance(1, 6) {
+			for k := r.Range(1, 2); k > 0; k-- {
+				e.After = append(e.After, r.Pick([]string{"# Older entries have been removed from this changelog.", "#", "# vim: set ft=debchangelog:", "   ", " \t", "#no blank after the hash"}))
+			}
+		}
 		ts := time.Date(2000+r.Intn(30), time.Month(1+r.Intn(12)), 1+r.Intn(28), r.Intn(24), r.Intn(60), r.Intn(60), 0, time.UTC)
 		e.When = fmt.Sprintf("%s, %02d %s %d %02d:%02d:%02d %s", days[int(ts.Weekday()+6)%7], ts.Day(), ts.Month().String()[:3], ts.Year(), ts.Hour(), ts.Minute(), ts.Second(), r.Pick(clZones))
 		// the weekday must match the date in the entry's own zone; recompute via a parse
@@ -438,7 +458,10 @@ func (p c17) prefix(c *core.C, cs c17Prefix) {
 		from = ends[k-1]
 	}
 	rest := text[from:]
-	inside := strings.Trim(rest, "\n") != ""
+	_ = rest
+	// inside entry k: at least one byte of its header has been seen (what lies between ends[k-1] and starts[k] are
+	// blank lines, comment lines and lines of blanks)
+	inside := k < len(starts) && cs.P > starts[k]
 	onlyFinalNL := inside && k < len(ends) && cs.P == ends[k]-1
 	// position class
 	switch {
@@ -530,6 +553,8 @@ func (p c17) malformed(c *core.C, class, text string) {
 func (p c17) RunBatch(t *core.T, b core.Batch) {
 	r := t.Rand(b.Name, fmt.Sprint(b.Arg))
 	switch b.Name {
+	case "corpus":
+		p.corpusBatch(t, b)
 	case "full":
 		for i := 0; i < b.N; i++ {
 			d := genChangelog(r, 6)
@@ -633,6 +658,8 @@ func (p c17) RunCase(t *core.T, kind string, input []byte) {
 		if json.Unmarshal(input, &cs) == nil {
 			t.Case(kind, input, func(c *core.C) { p.prefix(c, cs) })
 		}
+	case "corpus":
+		t.Case(kind, input, func(c *core.C) { p.corpusCase(c, t, input) })
 	case "malformed":
 		parts := strings.SplitN(string(input), "\x1e", 2)
 		if len(parts) == 2 {
